@@ -43,6 +43,9 @@ func RunPath(w *tr.Writer, in *tr.Interner, st *PathStats, tid int, p PathPlan) 
 	st.Traces++
 	db := &memKV{m: map[string][]byte{}}
 	full := wmpt.New(nil, db)
+	// real weights are the scenario's small weights times a per-trace scale (see wrun.scale)
+	scaler := &wrun{scale: []uint64{1, 1000, 1, 1 << 20, 1<<33 + 7, 1, 1 << 40}[tid%7]}
+	S := scaler.scale
 	ukeys := UniverseKeys(p.Uni, p.Sub)
 	keyOf := func(i int) []byte {
 		if i >= 100 {
@@ -55,7 +58,7 @@ func RunPath(w *tr.Writer, in *tr.Interner, st *PathStats, tid int, p PathPlan) 
 		k := int(toF(kv[0]))
 		v := kv[1].(string)
 		wt, val := wval(v)
-		if err := full.Update(keyOf(k), val, wt); err != nil {
+		if err := full.Update(keyOf(k), val, wt*S); err != nil {
 			panic(err)
 		}
 		initEv = append(initEv, []any{k, v, wt})
@@ -113,8 +116,8 @@ func RunPath(w *tr.Writer, in *tr.Interner, st *PathStats, tid int, p PathPlan) 
 	}
 	obs := func(ev map[string]any) {
 		res := Guard(func() string {
-			ev["froot"], ev["fweight"] = in.ID(full.Root()), full.Weight()
-			ev["proot"], ev["pweight"] = in.ID(partial.Root()), partial.Weight()
+			ev["froot"], ev["fweight"] = in.ID(full.Root()), scaler.sw(full.Weight())
+			ev["proot"], ev["pweight"] = in.ID(partial.Root()), scaler.sw(partial.Weight())
 			return "ok"
 		})
 		if res != "ok" {
@@ -134,7 +137,7 @@ func RunPath(w *tr.Writer, in *tr.Interner, st *PathStats, tid int, p PathPlan) 
 			}
 			ev["w"] = wt
 			ev["fres"] = Guard(func() string {
-				if err := full.Update(keyOf(op.K), val, wt); err != nil {
+				if err := full.Update(keyOf(op.K), val, wt*S); err != nil {
 					if err == wmpt.ErrNotFound {
 						return "notfound"
 					}
@@ -143,7 +146,7 @@ func RunPath(w *tr.Writer, in *tr.Interner, st *PathStats, tid int, p PathPlan) 
 				return "ok"
 			})
 			ev["pres"] = Guard(func() string {
-				if err := partial.Update(keyOf(op.K), val, wt); err != nil {
+				if err := partial.Update(keyOf(op.K), val, wt*S); err != nil {
 					if err == wmpt.ErrNotFound {
 						return "notfound"
 					}
@@ -161,7 +164,7 @@ func RunPath(w *tr.Writer, in *tr.Interner, st *PathStats, tid int, p PathPlan) 
 	}
 	// final independent root of the full trie's content as observed through proofs
 	{
-		r := &wrun{w: w, in: in, st: &WStats{Distinct: map[string]bool{}, Modes: map[string]int{}}, tid: tid, kidx: map[string]int{}}
+		r := &wrun{w: w, in: in, st: &WStats{Distinct: map[string]bool{}, Modes: map[string]int{}}, tid: tid, kidx: map[string]int{}, scale: S}
 		for i, k := range ukeys {
 			r.kidx[string(k)] = i
 		}
@@ -176,11 +179,11 @@ func RunPath(w *tr.Writer, in *tr.Interner, st *PathStats, tid int, p PathPlan) 
 			idx := row[1].(int)
 			if idx >= 0 && !seen[idx] {
 				seen[idx] = true
-				entries = append(entries, bridge.WEntry{Key: keyOf(idx), Value: []byte(row[2].(string)), Weight: row[3].(uint64)})
+				entries = append(entries, bridge.WEntry{Key: keyOf(idx), Value: []byte(row[2].(string)), Weight: uint64(row[3].(int64)) * S})
 			}
 		}
 		wr, wt := bridge.WRoot(entries)
-		emit(map[string]any{"op": "final", "owners": list, "total": total, "ok": ok, "rootOK": bytes.Equal(wr, full.Root()) && wt == total,
+		emit(map[string]any{"op": "final", "owners": list, "total": total, "ok": ok, "rootOK": bytes.Equal(wr, full.Root()) && total >= 0 && wt == uint64(total)*S,
 			"froot": in.ID(full.Root())})
 	}
 	st.Distinct[sig] = true
